@@ -588,7 +588,7 @@ pub fn supervise(prop: &dyn Property, tier: Tier, seed: u64) -> i32 {
     }
 
     let budget_s: u64 = std::env::var("VERIF_WATCHDOG_S").ok().and_then(|s| s.parse().ok()).unwrap_or(match tier {
-        Tier::Quick => 900,
+        Tier::Quick => 300,
         Tier::Thorough => 5400,
     });
 
@@ -598,6 +598,7 @@ pub fn supervise(prop: &dyn Property, tier: Tier, seed: u64) -> i32 {
 
     // regression tier: previously found failing cases of this property (replays/regress/<ID>-*.json)
     let mut regress_count = 0usize;
+    let mut regress_hung: Vec<String> = Vec::new();
     if let Ok(rd) = std::fs::read_dir(Path::new(VERIF).join("replays").join("regress")) {
         let mut files: Vec<PathBuf> = rd
             .filter_map(|e| e.ok().map(|e| e.path()))
@@ -619,17 +620,37 @@ pub fn supervise(prop: &dyn Property, tier: Tier, seed: u64) -> i32 {
                         .expect("harness: spawn replay")
                 })
                 .collect();
+            // a replayed case that does not come back (the tree under test loops) is killed after two minutes
+            let deadline = Instant::now() + std::time::Duration::from_secs(120);
             for (f, mut k) in chunk.iter().zip(kids) {
-                let st = k.wait().expect("harness: wait replay");
+                let st = loop {
+                    match k.try_wait().expect("harness: wait replay") {
+                        Some(st) => break Some(st),
+                        None if Instant::now() > deadline => {
+                            let _ = k.kill();
+                            let _ = k.wait();
+                            break None;
+                        }
+                        None => std::thread::sleep(std::time::Duration::from_millis(2)),
+                    }
+                };
                 regress_count += 1;
-                if st.signal().is_some() || st.code() == Some(1) {
-                    violations.push((f.display().to_string(), "regression case fails again".into()));
+                match st {
+                    None => regress_hung.push(f.display().to_string()),
+                    Some(st) => {
+                        if st.signal().is_some() || st.code() == Some(1) {
+                            violations.push((f.display().to_string(), "regression case fails again".into()));
+                        }
+                    }
                 }
             }
         }
     }
     let mut harness_errors = Vec::new();
     let mut inconclusive = Vec::new();
+    for f in &regress_hung {
+        inconclusive.push(format!("regression case {} did not finish within two minutes (killed)", f));
+    }
     let findings = load_findings();
 
     let scratch: Vec<PathBuf> = children.iter().flat_map(|c| [c.2.clone(), c.3.clone()]).collect();
